@@ -386,6 +386,25 @@ let bf_main () =
      | _ -> print_endline "?")
   done with End_of_file -> ())
 
+(* link: stdin lines "G (name:def:tent)*" -> names (with flags) scan_globals keeps; "F (name:root:ref,ref,..)*" -> live set (C15) *)
+let link_main () =
+  let rec nat_of i = if i = 0 then O else S (nat_of (i - 1)) in
+  let rec nat_int = function O -> 0 | S m -> 1 + nat_int m in
+  (try while true do
+    let line = input_line stdin in
+    (match List.filter (fun x -> x <> "") (String.split_on_char ' ' (String.trim line)) with
+     | "G" :: items ->
+       let gs = List.map (fun it -> match String.split_on_char ':' it with
+         | [n; d; t] -> { g_name = nat_of (int_of_string n); g_def = (d = "1"); g_tent = (t = "1") } | _ -> failwith "G item") items in
+       print_endline (String.concat " " (List.map (fun g -> Printf.sprintf "%d:%d:%d" (nat_int g.g_name) (if g.g_def then 1 else 0) (if g.g_tent then 1 else 0)) (scan_globals gs)))
+     | "F" :: items ->
+       let fs = List.map (fun it -> match String.split_on_char ':' it with
+         | [n; r; refs] -> { f_name = nat_of (int_of_string n); f_root = (r = "1");
+                             f_refs = List.map (fun x -> nat_of (int_of_string x)) (List.filter (fun x -> x <> "") (String.split_on_char ',' refs)) } | _ -> failwith "F item") items in
+       print_endline (String.concat " " (List.map (fun n -> string_of_int (nat_int n)) (live_set fs)))
+     | _ -> print_endline "?")
+  done with End_of_file -> ())
+
 (* cond: stdin lines of items I1 I0 E1 E0 L N T<k>; prints the selected payloads or ERR (C10) *)
 let cond_main () =
   (try while true do
@@ -477,6 +496,7 @@ let () =
   | [_; "lines"; f] -> lines_main f
   | [_; "macro"; f] -> macro_main f
   | [_; "cond"] -> cond_main ()
+  | [_; "link"] -> link_main ()
   | [_; "bf"] -> bf_main ()
   | [_; "switch"] -> switch_main ()
   | [_; "sdisc"] -> sdisc_main ()
